@@ -27,6 +27,10 @@ def run(rep, idx, tier):
     # the layouts the builder promises rely on the memory map accepting every legal explicit placement
     from .c02 import legal_placements
     legal_placements(rep, idx, "C17.4")
+    # ... and refusing every overlapping one: as_memory_map() places the registers through the map's interval tests
+    rep.require("C17.5", 6)
+    from .c02 import intervals
+    intervals(rep, idx, rule="C17.5")
     add(rep, idx)
     scopes(rep, idx)
     as_memory_map(rep, idx)
